@@ -154,7 +154,30 @@ def depth_of(t):
     return 0 if t[0] in ("prop", "any") else 1 + max(depth_of(t[1]), depth_of(t[2]))
 
 
+GHOST = "ghost"    # an input variable without terms: Python's `if variable:` is false for it (Variable.__len__)
+
+
+def termless_case(rng):
+    """an engine with a variable that has no terms, used as `ghost is [hedges] any` (alone or under and / or): the
+    loaders do not recognise its name (`if variable:`), the rule is rejected with a SyntaxError; the model must agree"""
+    vars_ = gen_engine(rng)
+    vars_.insert(sum(1 for v in vars_ if not v["out"]), {"name": GHOST, "out": False, "enabled": True, "terms": [],
+                                                         "agg": None, "acts": []})
+    ghost = ["any", GHOST, [rng.choice(HEDGES) for _ in range(rng.choice([0, 0, 1]))]]
+    usable = [v for v in vars_ if v["terms"]]
+    shape = rng.choice(["alone", "left", "right"])
+    tree = ghost if shape == "alone" else ([rng.choice(["and", "or"]), ghost, gen_ante(rng, usable, 1)] if shape == "left"
+                                           else [rng.choice(["and", "or"]), gen_ante(rng, usable, 1), ghost])
+    ov = [v for v in vars_ if v["out"]][0]
+    text = "if " + " ".join(awriting(tree, 0, 0)) + f" then {ov['name']} is {ov['terms'][0][0]}"
+    row = {v["name"]: rng.random() for v in vars_ if not v["out"]}
+    return {"kind": "termless", "style": "min", "tree": tree, "text": text, "vars": vars_, "conj": "Minimum", "disj": "Maximum",
+            "weight": 1.0, "rows": [row]}
+
+
 def make_case(rng):
+    if rng.random() < 0.02:
+        return termless_case(rng)
     vars_ = gen_engine(rng)
     tree = gen_ante(rng, vars_, rng.choice([0, 1, 2, 2, 3, 3, 4, 4]))
     style = rng.choice(["min", "min", "rand", "rand", "full"])
@@ -351,6 +374,12 @@ def oracle(case):
     r = run_impl(case)
     if r["load"].startswith("INTERNAL"):
         return False, f"internal error loading '{case['text']}': {r['msg']}"
+    if case.get("kind") == "termless":
+        # not an antecedent over the engine's usable names (Lean: AnteOK needs `findVar`, i.e. a variable with a term)
+        if r["load"] == "syntax":
+            return True, "variable without terms is not recognised: rejected with a SyntaxError"
+        return False, (f"'{case['text']}' uses the variable '{GHOST}' that has no terms: expected a SyntaxError "
+                       f"(`if variable:` is false for it), got load={r['load']} {r['msg']}")
     if r["load"] != "ok":
         return False, f"rule from the grammar rejected: '{case['text']}': {r['load']} {r['msg']}"
     exp_pf, exp_in = apostfix(case["tree"]), ainfix(case["tree"])
